@@ -27,6 +27,7 @@ class Report:
         self.rules = {}          # rule id -> dict(desc=..., n=0, floor=..)
         self.t0 = time.time()
         self.battery = None
+        self.pending = []        # constructs found in a shape no recogniser covers (undecided, never a violation)
 
     # ------------------------------------------------------------------
     def rule(self, rid, desc, floor=1):
@@ -60,6 +61,16 @@ class Report:
     def note(self, msg):
         self.notes.append(norm_text(msg))
 
+    def undecided(self, rule, func, node, text, detail=''):
+        """the construct is there but in a shape the rule has no recogniser for: not a verdict about the code.
+        The run ends as ANALYSIS-ERROR (exit 2) unless some other obligation is violated."""
+        fq = getattr(func, 'fq', func) or ''
+        site = func.site(node) if hasattr(func, 'site') and node is not None else (func.site() if hasattr(func, 'site') else str(func))
+        self.pending.append(f'{rule} at {site} in {fq}: {norm_text(text)} -- {norm_text(detail)}')
+        if rule in self.rules:
+            self.rules[rule]['n'] += 1
+        return None
+
     def require(self, cond, msg):
         if not cond:
             raise AnalysisError(msg)
@@ -82,6 +93,8 @@ class Report:
         new = [o for o in violated if o['key'] not in known_keys]
         listed = [o for o in violated if o['key'] in known_keys]
         floor_errors = []
+        if analysis_error is None and not new and self.pending:
+            analysis_error = 'shape not recognised (no verdict): ' + '; '.join(self.pending[:4])
         if analysis_error is None and not new:
             # floors guard against vacuous passes; a run that already found violations is not vacuous
             for rid, r in self.rules.items():
